@@ -40,10 +40,24 @@ def finish_leaves(I):
     return n
 
 
-def analyse(cfg, facts):
+def reachable_state_invariant(ctx, cfg, chk):
+    """see rules/c05.state_invariant: fragment_number <= 254 in every reachable state"""
+    from .fsm import get_fsm
+    from .c05 import state_invariant
+    try:
+        fsm = get_fsm(ctx, cfg)
+    except Unanalysable:
+        return None
+    if not state_invariant(fsm):
+        return None
+    chk.note("%s: reachable-state invariant fragment_number <= 254 proved inductive on the extracted transition relation" % cfg)
+    return {"fragment_number": IntSet.range(0, 254)}
+
+
+def analyse(cfg, facts, inv=None):
     """-> list of (root name, Interp) after interpreting the three roots"""
     out = []
-    I1, cell, outs = sentence.run_parser(facts)
+    I1, cell, outs = sentence.run_parser(facts, state_sets=inv)
     out.append(("AisParser::parse", I1, len(outs)))
     I2, outs2 = armor.run_unarmor(facts)
     out.append(("messages::unarmor", I2, len(outs2)))
@@ -89,7 +103,8 @@ def run(ctx, chk):
     total_sites = 0
     for cfg in cfgs:
         facts = ctx.facts(cfg)
-        for (root, I, npaths) in analyse(cfg, facts):
+        inv = reachable_state_invariant(ctx, cfg, chk)
+        for (root, I, npaths) in analyse(cfg, facts, inv):
             nleaf = finish_leaves(I)
             sites = 0
             kinds = {}
